@@ -7,7 +7,7 @@ mechanism's obligations are checked on all paths.
 """
 from core import strip, is_field, key_str, key_mentions, order_ge
 from facts import AnalysisBroken
-from rules import (nodeset, callpred, field_of, ev, Unevaluable, forced_edges, atom_from, one, some,
+from rules import (through_local, nodeset, callpred, field_of, ev, Unevaluable, forced_edges, atom_from, one, some,
                    base_var, macro_of, truth_table)
 import stale
 
@@ -325,7 +325,7 @@ def check_wait_sites(ctx, P):
                         bad = bad or ("the yield is reachable without %s" % what, y, w, "mech3 yield without " + what)
                 # the sleep only after winning the CAS
                 pubp = nodeset(pubs)
-                w = fn.guarded(y, lambda leaf, pol: pubp(strip(leaf)) and pol is True)
+                w = fn.guarded(y, lambda leaf, pol: pubp(through_local(fn, leaf)) and pol is True)
                 if w is not None:
                     bad = bad or ("the fiber goes to sleep without having won the publishing CAS", y, w, "sleep without CAS success")
         elif mech == 4:
